@@ -77,6 +77,8 @@ def main(argv=None):
     _SCALE = a.scale
     t0 = time.time()
     _quiet()
+    import ioflo
+    assert os.path.realpath(ioflo.__file__).startswith(os.path.realpath(os.environ.get("VERIF_REPO", "/repo")) + os.sep), ioflo.__file__
     mod = importlib.import_module("harness." + a.prop)
     prop = mod.PROPERTY
     obs = mod.obligations(tier)
@@ -222,7 +224,8 @@ def main(argv=None):
         assumptions=list(getattr(mod, "ASSUMPTIONS", [])),
         wall_s=wall, violations=len(violations),
     )
-    if not a.no_evidence and not a.only:
+    scratch = os.path.realpath(os.environ.get("VERIF_REPO", "/repo")) != "/repo"
+    if not a.no_evidence and not a.only and not scratch:
         json.dump(ev, open(os.path.join(VERIF, "evidence", prop + ".json"), "w"), indent=1, default=repr)
     print("%s tier=%s obligations=%d discharged=%d paths=%d (confirmed %d, rejected %d, unknown %d, failed %d) queries=%d solver=%.1fs wall=%.1fs"
           % (prop, tier, len(obs), len(obs) - len(inconclusive), tot("paths"), tot("confirmed"), tot("rejected"),
